@@ -18,6 +18,8 @@
      member i as @include has returned Ok, the stand-off file of member i holds the member's content
      (alone the call writes pending content before it returns); an export of a resource's text to
      another place (to_txt_file) leaves the resource's own stand-off state alone;
+   - a store with sub-stores is written with an @include per sub-store, and the call returns only when
+     it has written the sub-store files (or reports an error): when it has returned Ok the files are there;
    - a call that is refused (ToJson::to_json_string with a Config whose dataformat is not JSON) returns
      Err and leaves nothing behind: whatever runs next on that thread returns what it returns alone;
      saving a store in the CBOR format writes one file and does not concern the stand-off files;
@@ -28,7 +30,11 @@ Import ListNotations.
 From Stam Require Import Model.Conc.
 
 Definition in_store (i : nat) (k : fkind) : tok :=
-  match k with NoFile => t_inline i | Txt | Json | JsonBroken | TxtBroken => t_include i end.
+  match k with NoFile => t_inline i | Txt | Json | JsonBroken | TxtBroken | SubStore => t_include i end.
+
+(* a member serialised on its own, the way it appears inside the store *)
+Definition member_form (i : nat) (k : fkind) : tok :=
+  match k with SubStore => t_inline i | _ => in_store i k end.
 
 Fixpoint store_form (i : nat) (mem : list fkind) : list tok :=
   match mem with
@@ -41,7 +47,7 @@ Definition spec_out (mem : list fkind) (o : op) : list tok :=
   | OpPure => []
   | OpStore => store_form 0 mem
   | OpMemberTrait i => [t_inline i]
-  | OpMemberPlain i => [in_store i (kind_of mem i)]
+  | OpMemberPlain i => [member_form i (kind_of mem i)]
   | OpMemberForeign i => [t_inline i]
   | OpMemberThenStore i => t_inline i :: t_sep :: store_form 0 mem ++ [t_sep]
   | OpStoreTwice => store_form 0 mem ++ t_sep :: store_form 0 mem ++ [t_sep]
@@ -50,6 +56,7 @@ Definition spec_out (mem : list fkind) (o : op) : list tok :=
   | OpSaveCbor => []
   | OpRefused _ => [t_err]
   | OpRefusedThenStore _ => t_err :: t_sep :: store_form 0 mem ++ [t_sep]
+  | OpStoreChanged => []
   end.
 
 (* Stores with a stand-off file that cannot be written.  A call that has to rewrite such a file
